@@ -550,7 +550,8 @@ class File(resource.Resource, filepath.FilePath[str]):
             request.setHeader(
                 b"content-range", networkString("bytes */%d" % (self.getFileSize(),))
             )
-            return [], b""
+            # One empty part: the producer finishes without writing a body.
+            return [(b"", 0, 0)]
         finalBoundary = b"\r\n--" + boundary + b"--\r\n"
         rangeInfo.append((finalBoundary, 0, 0))
         request.setResponseCode(http.PARTIAL_CONTENT)
